@@ -402,8 +402,13 @@ func (k Keeper) UpdateLockedBorrows(ctx sdk.Context, borrow lendtypes.BorrowAsse
 	k.lend.UpdateBorrowStats(ctx, lendPair, borrow.IsStableBorrow, borrow.AmountOut.Amount, false)
 	lendPos.AmountIn.Amount = lendPos.AmountIn.Amount.Sub(borrow.AmountIn.Amount)
 	k.lend.UpdateLendStats(ctx, lendPos.AssetID, lendPos.PoolID, borrow.AmountIn.Amount, false)
-	if !lendPos.AmountIn.Amount.GT(sdk.ZeroInt()) {
-		// delete lend position
+	if lendPos.AmountIn.Amount.IsNegative() {
+		// collateral that came from credited rewards is not part of the principal
+		lendPos.AmountIn.Amount = sdk.ZeroInt()
+	}
+	if !lendPos.AmountIn.Amount.GT(sdk.ZeroInt()) && !lendPos.AvailableToBorrow.GT(sdk.ZeroInt()) {
+		// delete lend position (only once nothing is left in it: what is still available to borrow, e.g. credited
+		// rewards, belongs to the lender and is counted in the pool's total lent)
 		k.lend.DeleteLendForAddressByAsset(ctx, lendPos.Owner, lendPos.ID)
 		k.lend.DeleteIDFromAssetStatsMapping(ctx, lendPos.PoolID, lendPos.AssetID, borrow.LendingID, true)
 		k.lend.DeleteLend(ctx, lendPos.ID)
